@@ -1,3 +1,3 @@
 From Coq Require Import ExtrOcamlBasic ZArith.
-From RtoscV Require Import Pretty.Tok Pretty.FloatFmt Pretty.PrintModel Pretty.ScanModel.
-Extraction "model.ml" Z.add Z.mul Z.opp Z.sub Z.div Z.modulo print_arg_vals print_message count_printed_arg_vals scan_arg_vals count_printed_arg_vals_of_msg scan_message.
+From RtoscV Require Import Pretty.Tok Pretty.FloatFmt Pretty.TimeFmt Pretty.PrintModel Pretty.ScanModel.
+Extraction "model.ml" Z.add Z.mul Z.opp Z.sub Z.div Z.modulo print_arg_vals print_message count_printed_arg_vals scan_arg_vals count_printed_arg_vals_of_msg scan_message date_of_secs secs_of_date.
